@@ -97,21 +97,22 @@ func specEvs(v interface{}) []Ev {
 }
 
 type world struct {
-	inf     *kem.VerifInformer
-	s       *gate.Sched
-	ch      []Ev
-	deliv   []Ev
-	handler *gate.Proc
-	readers map[string]*gate.Proc
-	reads   map[string][]kemtypes.ObjectAndFilterResult
-	enabler *gate.Proc
-	procs   []*gate.Proc
-	pending []Ev // watch events not yet handed to the handler
-	cluster map[string]string
-	seq     int
-	filter  string
-	proj    string
-	lastRV  map[string]string
+	eventTypes []string
+	inf        *kem.VerifInformer
+	s          *gate.Sched
+	ch         []Ev
+	deliv      []Ev
+	handler    *gate.Proc
+	readers    map[string]*gate.Proc
+	reads      map[string][]kemtypes.ObjectAndFilterResult
+	enabler    *gate.Proc
+	procs      []*gate.Proc
+	pending    []Ev // watch events not yet handed to the handler
+	cluster    map[string]string
+	seq        int
+	filter     string
+	proj       string
+	lastRV     map[string]string
 
 	// observations for the oracle
 	fired      []Ev     // in fire order (buffered or handed to the callback)
@@ -139,7 +140,7 @@ var filters = map[string]string{
 }
 
 func newWorld(eventTypes []string, filter, proj string, ms *metric_storage.MetricStorage) *world {
-	w := &world{filter: filter, proj: proj, lastRV: map[string]string{}, s: gate.New(), readers: map[string]*gate.Proc{}, reads: map[string][]kemtypes.ObjectAndFilterResult{}, cluster: map[string]string{}}
+	w := &world{eventTypes: eventTypes, filter: filter, proj: proj, lastRV: map[string]string{}, s: gate.New(), readers: map[string]*gate.Proc{}, reads: map[string][]kemtypes.ObjectAndFilterResult{}, cluster: map[string]string{}}
 	cfg := &kem.MonitorConfig{}
 	cfg.Metadata.MonitorId = "m1"
 	cfg.Metadata.DebugName = "verif"
@@ -307,8 +308,11 @@ func (w *world) step(st State, prev State) (string, error) {
 			}
 		}
 	case "HW_NoFire":
+		// the watch-event type is not listed in executeHookOnEvent: the handler returns after the cache update
 		actor = "handler"
-		err = expectGate(w.handler, "done")
+		if err = expectGate(w.handler, "done"); err != nil {
+			return "C08/fired-although-type-not-listed/" + w.filter, fmt.Errorf("the event type of the change is not in executeHookOnEvent %v, yet the handler went on to deliver it: %v", w.eventTypes, err)
+		}
 	case "HW_Decide":
 		actor = "handler"
 		if en, _ := a[1].(bool); en {
@@ -691,6 +695,10 @@ func replayCase(n int, c Case, ms *metric_storage.MetricStorage) Result {
 			res.Sig, res.Detail, res.BadStep = "DIV/state/"+what+"/"+fmt.Sprint(steps[i]["act"].([]interface{})[0]), d, i
 			if what == "cache" {
 				res.Sig = "C08/cache-not-updated/" + c.Filter
+			}
+			if what == "buffer" && fmt.Sprint(steps[i]["act"].([]interface{})[0]) == "HW_NoFire" {
+				res.Sig = "C08/fired-although-type-not-listed/" + c.Filter
+				res.Detail = fmt.Sprintf("the event type of the change is not in executeHookOnEvent %v, yet an event was recorded for the hook: %s", c.EventTypes, d)
 			}
 			diverged = true
 			break
